@@ -6,6 +6,7 @@ from fractions import Fraction as Fr
 
 import gfi
 import gfi_corpus
+import gfi_kwargs
 import gfi_run
 import impl
 import sexp
@@ -112,6 +113,8 @@ def rand_selection(rng, g):
 def shard_c01(ctx, shard, n, nshards=13):
     G = impl.load()
     gfi_corpus.run(ctx, G, "C01", shard, nshards)   # structural corpus first
+    if shard == nshards - 1:
+        gfi_kwargs.run(ctx, G, "C01")            # keyword-argument twins (model has positional args only)
     rng = random.Random(ctx.seed * 7919 + shard)
     for _ in range(n):
         gen, g, pt = _gen(rng, ctx)
@@ -126,6 +129,8 @@ def shard_c01(ctx, shard, n, nshards=13):
 def shard_c02(ctx, shard, n, nshards=13):
     G = impl.load()
     gfi_corpus.run(ctx, G, "C02", shard, nshards)   # structural corpus first
+    if shard == nshards - 1:
+        gfi_kwargs.run(ctx, G, "C02")            # keyword-argument twins (model has positional args only)
     rng = random.Random(ctx.seed * 7919 + shard + 100)
     for _ in range(n):
         gen, g, pt = _gen(rng, ctx)
@@ -155,6 +160,8 @@ def cond_flip_program(rng, ctx):
 def shard_c03(ctx, shard, n, nshards=13):
     G = impl.load()
     gfi_corpus.run(ctx, G, "C03", shard, nshards)   # structural corpus first
+    if shard == nshards - 1:
+        gfi_kwargs.run(ctx, G, "C03")            # keyword-argument twins (model has positional args only)
     rng = random.Random(ctx.seed * 7919 + shard + 200)
     for it in range(n):
         if it % 3 == 2:
@@ -190,6 +197,8 @@ def shard_c03(ctx, shard, n, nshards=13):
 def shard_c04(ctx, shard, n, nshards=13):
     G = impl.load()
     gfi_corpus.run(ctx, G, "C04", shard, nshards)   # structural corpus first
+    if shard == nshards - 1:
+        gfi_kwargs.run(ctx, G, "C04")            # keyword-argument twins (model has positional args only)
     rng = random.Random(ctx.seed * 7919 + shard + 300)
     for _ in range(n):
         gen, g, pt = _gen(rng, ctx)
@@ -208,6 +217,8 @@ def shard_c04(ctx, shard, n, nshards=13):
 def shard_c05(ctx, shard, n, nshards=13):
     G = impl.load()
     gfi_corpus.run(ctx, G, "C05", shard, nshards)   # structural corpus first
+    if shard == nshards - 1:
+        gfi_kwargs.run(ctx, G, "C05")            # keyword-argument twins (model has positional args only)
     rng = random.Random(ctx.seed * 7919 + shard + 400)
     for _ in range(n):
         gen, g, pt = _gen(rng, ctx)
